@@ -166,7 +166,7 @@ func runEarlyReply(rec *Rec, g *Gates, sc *RedialMScenario, n int) {
 	case cmd := <-done:
 		// (a write error: not one of the connection errors; recorded for the reader of the trace only)
 		rec.Emit("EarlyCallDone", "code", cmd.Status().Code(), "msg", cmd.Status().Msg())
-	case <-time.After(5 * time.Second):
+	case <-time.After(10 * time.Second):
 		rec.Emit("CallHang", "tag", sc.ID)
 	}
 	time.Sleep(20 * time.Millisecond)
@@ -175,7 +175,7 @@ func runEarlyReply(rec *Rec, g *Gates, sc *RedialMScenario, n int) {
 	select {
 	case <-closeRet:
 		rec.Emit("CloseRet")
-	case <-time.After(5 * time.Second):
+	case <-time.After(10 * time.Second):
 		rec.Emit("CloseHang")
 	}
 	raw.Close()
@@ -265,7 +265,7 @@ func runRedialM(rec *Rec, app *App, g *Gates, fw *forwarder, sc *RedialMScenario
 		case cmd := <-done:
 			rec.Emit("CallDone", "code", cmd.Status().Code(), "msg", cmd.Status().Msg(), "resok", res.Tag == F(tag), "tag", tag)
 			return cmd.Status().OK()
-		case <-time.After(5 * time.Second):
+		case <-time.After(10 * time.Second):
 			rec.Emit("CallHang", "tag", tag)
 			return false
 		}
@@ -410,7 +410,7 @@ func runRedialM(rec *Rec, app *App, g *Gates, fw *forwarder, sc *RedialMScenario
 		select {
 		case cmd := <-p.done:
 			rec.Emit("CallDone", "code", cmd.Status().Code(), "msg", cmd.Status().Msg(), "resok", p.res.Tag == F(p.tag), "tag", p.tag)
-		case <-time.After(5 * time.Second):
+		case <-time.After(10 * time.Second):
 			rec.Emit("CallHang", "tag", p.tag)
 		}
 	}
@@ -421,7 +421,7 @@ func runRedialM(rec *Rec, app *App, g *Gates, fw *forwarder, sc *RedialMScenario
 		select {
 		case <-closeRet:
 			rec.Emit("CloseRet")
-		case <-time.After(5 * time.Second):
+		case <-time.After(10 * time.Second):
 			rec.Emit("CloseHang")
 		}
 	}
@@ -473,7 +473,7 @@ func runRedialM(rec *Rec, app *App, g *Gates, fw *forwarder, sc *RedialMScenario
 		select {
 		case cmd := <-done:
 			rec.Emit("FreshCall", "code", cmd.Status().Code(), "msg", cmd.Status().Msg(), "resok", res.Tag == F(tag), "srvup", fw.isUp(), "hookbad", atomic.LoadInt32(&hooks.bad) == 1)
-		case <-time.After(5 * time.Second):
+		case <-time.After(10 * time.Second):
 			rec.Emit("CallHang", "tag", tag, "fresh", true)
 		}
 	}
